@@ -424,6 +424,39 @@ pub fn run(cfg: &Cfg) -> Stats {
                 }
             }
         }
+        // words built from two pieces of the vocabulary: a repeated or doubled negation prefix, a word written twice, two
+        // words glued together - none of them is a word of the language unless the recogniser says so
+        for w in &vocab {
+            if !mine() {
+                continue;
+            }
+            for pre in ["no", "no-", "nono", "no-no-", "nono-", "no-no", "NO-NO-NO-", "nonono", "non", "-", "no--", "on", "no no", "no -"] {
+                let x = format!("{pre}{w}");
+                for s in [x.clone(), format!("red {x} blue"), format!("{x} ul green")] {
+                    eval(&s, &mut st, true);
+                }
+            }
+            for x in [format!("{w}{w}"), format!("{w}-{w}"), format!("{w}no"), format!("{w}-"), format!("{w}bold"), format!("{w}red")] {
+                eval(&x, &mut st, true);
+                eval(&format!("blue {x}"), &mut st, true);
+            }
+        }
+        // '#' followed by 0..=18 hex digits: only 3 and 6 are colours, whatever the digits are (all zero, each third
+        // small enough to fit a byte, random)
+        for len in 0..=18usize {
+            if !mine() {
+                continue;
+            }
+            let mut rng = Rng::new(cfg.seed, 0xC11_7000 + len as u64);
+            let third = (len / 3).max(1);
+            let small: String = (0..len).map(|i| if i % third >= third.saturating_sub(2) { *rng.pick(&['0', '1', 'a', 'f', 'F', '9']) } else { '0' }).collect();
+            let random: String = (0..len).map(|_| *rng.pick(&['0', '1', '7', '9', 'a', 'c', 'f', 'A', 'F'])).collect();
+            for digits in ["0".repeat(len), "f".repeat(len), small, random] {
+                for s in [format!("#{digits}"), format!("red #{digits}"), format!("#{digits} #{digits} bold"), format!("bold #{digits} ul")] {
+                    eval(&s, &mut st, true);
+                }
+            }
+        }
         // near-miss numbers
         for v in ["00", "007", "0255", "0256", "1000", "99999999999999999999", "+5", "+255", "-0", "-2", "--1", "1.0", "1e2", "0x10", "\u{ff11}", "١", "1 2 3", "#", "##000", "#0000000"] {
             if mine() {
